@@ -37,6 +37,11 @@ CHECKS = [
      "trusts: exact polynomial/Problem model (model/poly.rs, model/exact.rs); map orders are forced by rebuilding the HashMap under successive RandomStates (an equal map in another order is a legal state of the same message); 'no hang' = 10 s wall-clock watchdog per run",
      "deterministic simulation (schedules = iteration orders of the dependency map, enumerated for n=5 and sampled otherwise; operation histories; exact reference-model oracle; watchdog for progress; shrinking + replay)",
      "DESIGN.md section 3 C04"),
+ chk("C08", "fault_enumeration",
+     "faulty-producer simulation: for each of N seeded valid messages (hints, dependencies, removed constraints; a quarter parametric) the well-formed original and EVERY single-fault mutation at EVERY position (duplicate each variable/constraint ID in every list combination, an undefined variable at each ID position of each function, each required field unset, each invalid bound shape on each variable, undefined/repeated IDs in each hint slot and dependency key, parameter/variable ID collisions), plus sampled pairs, are encoded, decoded and handed to validate() and try_from(); oracle = reference well-formedness model: validate() Ok exactly when the three ID rules hold, try_from Ok exactly when all rules hold, the reported error kind and context path name one of the injected faults, no well-formed message rejected, element-level typed views carry the content (absent bound = unbounded, [0,1] for binaries).",
+     "trusts: the rule model judge() in sim/src/props/c08.rs; exhaustive only relative to the sampled messages and the listed fault kinds; the typed Instance exposes no accessors, so content is checked on the element-level typed views",
+     "deterministic simulation with fault injection (fault enumeration: every single-fault mutation of a delivered message, pairs sampled; reference well-formedness model; shrinking + replay)",
+     "DESIGN.md section 3 C08"),
  chk("C14", "exploration",
      "seeded search over histories of 1-9 operations relax(id, reason, params) / restore(id) / evaluate(state) with IDs drawn on purpose from the active list, the removed list and unknown IDs (a third of the mutating operations must fail): after every step conservation of (id, function, equality, metadata) over both lists, each ID in exactly one list, recorded reason and parameters, failing operation => Err and message == previous value; every evaluate equals the exact reference evaluation of the step-0 instance with relaxed feasibility over the currently active list.",
      "trusts: the two-list reference model in sim/src/props/c14.rs and the exact Problem model; valid instances only",
